@@ -624,7 +624,7 @@ fn gen_operand(g: &mut Gen, kind: char) -> String {
         't' => &["f", "d", "l", "p", "s", "b", "c"],
         'n' => &["0", "1", "+1", "-1", "2", "+0", "-5", "100", "54321"],
         'z' => &["0", "1", "+1k", "-1k", "5c", "2w", "1M", "+0G", "10b"],
-        'm' => &["644", "-644", "/222", "u=rw", "-u=r,g=r", "/a+x", "0", "7777", "u+s,g+s,o+t"],
+        'm' => &["644", "-644", "/222", "u=rw", "-u=r,g=r", "/a+x", "0", "7777", "u+s,g+s,o+t", "=755", "-=644", "/+111"],
         'F' => &["c/ref", "c/out1", "c/out2", "c/r/a", "c/r", "c/missing"],
         'f' => &["%p\\n", "%f %s %m\\n", "%-20p|%5d\\n", "%y%Y %l\\n", "%h/%f\\0", "%i %n %U %G %u %g\\n", "%a %t %c %TY\\n", "%M %b %k %S %D %F\\n", "%H %P\\n", "plain", "%%", "\\101\\n"],
         'D' => &["jan 01, 2025", "jan 01, 2025 00:00:01", "dec 31, 1999 23:59:59"],
@@ -874,6 +874,12 @@ fn check_vec(ctx: &mut Ctx, c: &VecCase) -> Outcome {
     let multibyte = c.tokens.iter().any(|t| !t.is_ascii());
     let (status, visited, diag);
     if c.binary {
+        // (the deep-nesting probes are close to the largest argument vector the kernel takes: where
+        // the limit is lower than usual they cannot be started at all, which decides nothing)
+        let need: usize = args.iter().map(|a| a.len() + 9).sum::<usize>() + std::env::vars_os().map(|(k, v)| k.len() + v.len() + 10).sum::<usize>() + 8192;
+        if need > unsafe { libc::sysconf(libc::_SC_ARG_MAX) } as usize {
+            return Pass::discard("argument vector larger than this system's ARG_MAX");
+        }
         let mut a: Vec<OsString> = args.iter().map(OsString::from).collect();
         if let Some(k) = c.raw_bytes_at {
             use std::os::unix::ffi::OsStringExt;
@@ -890,7 +896,7 @@ fn check_vec(ctx: &mut Ctx, c: &VecCase) -> Outcome {
             let stderr = lossy(&o.stderr);
             let loc = stderr.lines().find(|l| l.contains("panicked at")).map(|l| l.split("panicked at ").nth(1).unwrap_or("?").trim_end_matches(':').to_string()).unwrap_or_else(|| format!("signal-{:?}", o.signal));
             let loc_short: String = loc.rsplit("/src/").next().unwrap_or(&loc).split(':').take(2).collect::<Vec<_>>().join(":");
-            let loc_short = if stderr.contains("overflowed its stack") { format!("stack-overflow:{}", if args.iter().filter(|a| *a == "(").count() >= 500 { "nested-parentheses" } else { "other-shape" }) } else { loc_short };
+            let loc_short = if stderr.contains("overflowed its stack") { format!("stack-overflow:{}", if args.iter().filter(|a| *a == "(").count() >= 500 { if args.iter().any(|a| a == "-o") { "deep-expression-tree" } else { "nested-parentheses" } } else { "other-shape" }) } else { loc_short };
             let loc_short = if c.sinks != 0 && !loc_short.starts_with("stack-overflow") { format!("{loc_short}:output-fails") } else { loc_short };
             return fail(format!("C11:panic:{loc_short}"), format!("find {} (binary; stdout {}, stderr {})\nexit {:?} signal {:?}\nstderr {:?}", shown(&args), ["captured", "/dev/full", "closed pipe"][(c.sinks & 15) as usize % 3], ["captured", "/dev/full", "closed pipe"][(c.sinks >> 4) as usize % 3], o.code, o.signal, stderr.chars().take(2000).collect::<String>()));
         }
@@ -997,6 +1003,8 @@ fn probes() -> Vec<VecCase> {
         VecCase { flags: vec![], roots: vec![s("c/r")], tokens: vec![s("@PARENS:90000@")], binary: true, raw_bytes_at: None, sinks: 0 },
         VecCase { flags: vec![], roots: vec![s("c/r")], tokens: vec![s("@ORPARENS:2000@")], binary: true, raw_bytes_at: None, sinks: 0 },
         VecCase { flags: vec![], roots: vec![s("c/r")], tokens: vec![s("@ORPARENS:20000@")], binary: true, raw_bytes_at: None, sinks: 0 },
+        // (listed finding: the tree that this builds is walked recursively)
+        VecCase { flags: vec![], roots: vec![s("c/r")], tokens: vec![s("@ORPARENS:38000@")], binary: true, raw_bytes_at: None, sinks: 0 },
         VecCase { flags: vec![], roots: vec![s("c/r")], tokens: std::iter::repeat(s("!")).take(90000).chain([s("-true")]).collect(), binary: true, raw_bytes_at: None, sinks: 0 },
         VecCase { flags: vec![], roots: vec![s("c/r")], tokens: std::iter::repeat([s("-true"), s("-o")]).take(40000).flatten().chain([s("-true")]).collect(), binary: true, raw_bytes_at: None, sinks: 0 },
         VecCase { flags: vec![], roots: vec![s("c/r")], tokens: vec![s("-name"), s("x")], binary: true, raw_bytes_at: Some(1), sinks: 0 },
